@@ -109,6 +109,8 @@ class SmallBufferAllocator {
     auto& globals = getSmallBufferGlobals<kChunkSize>();
     auto& lock = globals.backingStoreLock;
     while (!lock.compare_exchange_weak(allocId, 1, std::memory_order_acquire)) {
+      // A failed CAS stores the observed value in allocId; only an unlocked (0) word may be taken.
+      allocId = 0;
     }
     size_t bytes = kMallocBytes * globals.backingStore.size();
     lock.store(0, std::memory_order_release);
